@@ -5,10 +5,23 @@ open FpVerif FpVerif.Sexp FpVerif.SliceHeap
 
 def emodI (x m : Int) : Int := if m == 0 then 0 else Int.emod x m
 
+def liveAt (live : List Slice) (j : Sexp) : Option Slice := do pure (live.getD (← j.asNat?) Slice.nil)
+
+/-- the callback of FlatMap: the element selects one of the live slices -/
+def pickLive (live : List Slice) (k : Int) : Int → Slice :=
+  fun v => live.getD (emodI (v + k) live.length).toNat Slice.nil
+
+def affine : Sexp → Option (Int → Int)
+  | .list [k, c] => do
+      let k ← k.asInt?; let c ← c.asInt?
+      pure (fun x => k * x + c)
+  | _ => none
+
 def opOf (live : List Slice) : Sexp → Option Op
   | .list [.atom "widen"] => some .widen
   | .list [.atom "init"] => some .init
   | .list [.atom "tail"] => some .tail
+  | .list [.atom "unSeq"] => some .unSeq
   | .list [.atom "take", n] => do pure (.take (← n.asNat?))
   | .list [.atom "drop", n] => do pure (.drop (← n.asNat?))
   | .list [.atom "filter", m, r] => do
@@ -23,9 +36,27 @@ def opOf (live : List Slice) : Sexp → Option Op
   | .list [.atom "mapPkg", k, c] => do
       let k ← k.asInt?; let c ← c.asInt?
       pure (.mapPkg (fun x => k * x + c))
+  | .list [.atom "flatMap", k] => do pure (.flatMap (pickLive live (← k.asInt?)))
+  | .list [.atom "flatMapPkg", k] => do pure (.flatMapPkg (pickLive live (← k.asInt?)))
+  | .list (.atom "flatten" :: js) => do pure (.flatten (← js.mapM (liveAt live)))
+  | .list [.atom "flatten2"] => none
+  | .list (.atom "ap" :: fs) => do pure (.ap (← fs.mapM affine))
+  | .list [.atom "map2", j] => do pure (.map2 (← liveAt live j) (fun a b => 10 * a + b))
+  | .list [.atom "filterMap", m, r] => do
+      let m ← m.asInt?; let r ← r.asInt?
+      pure (.filterMap (fun x => if emodI x m == r then some (x + 1) else none))
+  | .list [.atom "concatPkg", x] => do pure (.concatPkg (← x.asInt?))
+  | .list [.atom "ofPkg"] => some .ofPkg
+  | .list [.atom "pure", x] => do pure (.pure (← x.asInt?))
+  | .list [.atom "mergeCombine", _, j] => do pure (.mergeCombine (← liveAt live j))
+  | .list [.atom "mergeEmpty", _] => some .mergeEmpty
+  | .list (.atom "reduceMerge" :: js) => do pure (.reduceMerge (← js.mapM (liveAt live)))
+  | .list [.atom "iterToSeq", _] => some .iterToSeq
+  | .list [.atom "optToSeq", .atom "none"] => some (.optToSeq none)
+  | .list [.atom "optToSeq", x] => do pure (.optToSeq (some (← x.asInt?)))
   | .list [.atom "add", x] => do pure (.add (← x.asInt?))
   | .list (.atom "append" :: xs) => do pure (.append (← xs.mapM Sexp.asInt?))
-  | .list [.atom "concat", j] => do pure (.concat (live.getD (← j.asNat?) Slice.nil))
+  | .list [.atom "concat", j] => do pure (.concat (← liveAt live j))
   | .list [.atom "reverse"] => some .reverse
   | .list [.atom "sort", .atom "asc"] => some (.sort (fun a b => decide (a < b)))
   | .list [.atom "sort", .atom "desc"] => some (.sort (fun a b => decide (b < a)))
@@ -41,7 +72,6 @@ def opOf (live : List Slice) : Sexp → Option Op
   | .list [.atom "groupBy"] => some .groupBy
   | .list [.atom "toGoMap"] => some .toGoMap
   | .list [.atom "collect"] => some .collect
-  | .list [.atom "flatten2"] => some .flatten2
   | _ => none
 
 /-- canonical rendering: `nil`, `len0`, or `a<id>+<off>:[…]` with ids by first appearance among non-empty slices -/
@@ -79,13 +109,14 @@ def runHist : Sexp → Option String
           out := out ++ [d]
         | .list [i, op] =>
           let i ← i.asNat?
-          let op ← opOf w.live op
           let s := w.live.getD i Slice.nil
-          let r := apply w.heap s op
-          let h' := heapAfter w.heap r
-          let (ds, ids') := describeAll h' ids (results w.heap r)
+          let op ← match op with
+            | .list [.atom "flatten2"] => some (Op.flatten [s, s])
+            | _ => opOf w.live op
+          let (rs, h') := exec w.heap s op
+          let (ds, ids') := describeAll h' ids rs
           ids := ids'
-          w := { heap := h', live := w.live ++ results w.heap r }
+          w := { heap := h', live := w.live ++ rs }
           out := out ++ [" ".intercalate ds ++ "!"]
         | _ => none
       pure (" ; ".intercalate out ++ " | ")
